@@ -725,15 +725,10 @@ func (r *Reconciler) reconcileApply(ctx context.Context, proposal *configapi.Pro
 					failureType = configapi.Failure_INTERNAL
 				}
 
-				// Update the Configuration's applied index to indicate this Proposal was applied even though it failed.
-				log.Infof("Updating applied index for Configuration '%s' to %d in term %d", config.ID, proposal.TransactionIndex, config.Status.Mastership.Term)
-				config.Status.Applied.Index = proposal.TransactionIndex
-				if err := r.configurations.UpdateStatus(ctx, config); err != nil {
-					log.Warnf("Failed reconciling Transaction %d Proposal to target '%s'", proposal.TransactionIndex, proposal.TargetID, err)
-					return controller.Result{}, err
-				}
-
-				// Add the failure to the proposal's apply phase state.
+				// Add the failure to the proposal's apply phase state. This is recorded before the applied index is
+				// advanced: if the node fails between the two writes, a proposal that is still APPLYING behind an
+				// advanced applied index would be taken for applied (see the check at the top of this phase), whereas a
+				// FAILED proposal behind an applied index that was not advanced is recovered below.
 				log.Warnf("Failed applying Proposal '%s'", proposal.ID, err)
 				proposal.Status.Phases.Apply.State = configapi.ProposalApplyPhase_FAILED
 				proposal.Status.Phases.Apply.Failure = &configapi.Failure{
@@ -742,7 +737,17 @@ func (r *Reconciler) reconcileApply(ctx context.Context, proposal *configapi.Pro
 				}
 				proposal.Status.Phases.Apply.Term = config.Status.Mastership.Term
 				proposal.Status.Phases.Apply.End = getCurrentTimestamp()
-				if err := r.updateProposalStatus(ctx, proposal); err != nil {
+				if err := r.proposals.UpdateStatus(ctx, proposal); err != nil {
+					// (not updateProposalStatus: a write conflict must not let the applied index move on)
+					log.Warnf("Failed reconciling Transaction %d Proposal to target '%s'", proposal.TransactionIndex, proposal.TargetID, err)
+					return controller.Result{}, err
+				}
+
+				// Update the Configuration's applied index to indicate this Proposal was applied even though it failed.
+				log.Infof("Updating applied index for Configuration '%s' to %d in term %d", config.ID, proposal.TransactionIndex, config.Status.Mastership.Term)
+				config.Status.Applied.Index = proposal.TransactionIndex
+				if err := r.configurations.UpdateStatus(ctx, config); err != nil {
+					log.Warnf("Failed reconciling Transaction %d Proposal to target '%s'", proposal.TransactionIndex, proposal.TargetID, err)
 					return controller.Result{}, err
 				}
 				return controller.Result{}, nil
@@ -779,6 +784,24 @@ func (r *Reconciler) reconcileApply(ctx context.Context, proposal *configapi.Pro
 			return controller.Result{
 				Requeue: controller.NewID(proposalstore.NewID(proposal.TargetID, proposal.Status.NextIndex)),
 			}, nil
+		}
+		return controller.Result{}, nil
+	case configapi.ProposalApplyPhase_FAILED:
+		// The failure is recorded before the applied index is advanced: make up for a write that did not happen.
+		configID := configuration.NewID(proposal.TargetID, proposal.TargetType, proposal.TargetVersion)
+		config, err := r.configurations.Get(ctx, configID)
+		if err != nil {
+			if !errors.IsNotFound(err) {
+				return controller.Result{}, err
+			}
+			return controller.Result{}, nil
+		}
+		if config.Status.Applied.Index < proposal.TransactionIndex && config.Status.Applied.Index == proposal.Status.PrevIndex {
+			log.Infof("Updating applied index for Configuration '%s' to %d", config.ID, proposal.TransactionIndex)
+			config.Status.Applied.Index = proposal.TransactionIndex
+			if err := r.configurations.UpdateStatus(ctx, config); err != nil {
+				return controller.Result{}, err
+			}
 		}
 		return controller.Result{}, nil
 	default:
